@@ -299,8 +299,10 @@ type sut struct {
 	syncer  revision.RevisionSyncer
 }
 
-const baseRev = 20
-const leaderRev = 50
+// the follower's local read revision is above 1888 so that Revision == 1888 (the partition magic) is a past revision
+const baseRev = 3000
+const leaderRev = 3050
+const sched0 = baseRev + 10
 
 func newSut(scratch string) (*sut, error) {
 	kv, _, err := lib.NewEngine(lib.EngMem, scratch)
@@ -373,6 +375,42 @@ var kinds = []string{"ERangeGet", "ERangeList", "ERangeCount", "ERangePartition"
 	"EWatchPure", "EWatchStream", "EWatchInvalidKey", "ECompact", "EPut", "EDeleteRange", "ELeaseGrant", "ELeaseRevoke", "EMemberList",
 	"BCreate", "BUpdate", "BDelete", "BCompact", "BGet", "BRange", "BCount", "BListPartition", "BRangeStream", "BWatch"}
 
+var rmodes = []string{"MGet", "MList", "MCount"}
+var revsels = []string{"RvPinned", "RvCurrent", "RvFuture", "RvMagic"}
+
+func init() {
+	for _, m := range rmodes {
+		for _, v := range revsels {
+			kinds = append(kinds, "(ERangeAt "+m+" "+v+")")
+		}
+	}
+}
+
+// revisionFor: the Revision field of an explicit-revision read, relative to the node's current read revision
+func revisionFor(sel string, cur uint64) int64 {
+	switch sel {
+	case "RvPinned":
+		return int64(cur) - 10
+	case "RvCurrent":
+		return int64(cur)
+	case "RvFuture":
+		return int64(cur) + 5
+	}
+	return etcd.GetPartitionMagic
+}
+
+func rangeAt(mode, sel string, cur uint64, k []byte) *etcdserverpb.RangeRequest {
+	lo, hi := []byte("/c18/"), []byte("/c180")
+	rv := revisionFor(sel, cur)
+	switch mode {
+	case "MGet":
+		return &etcdserverpb.RangeRequest{Key: k, Revision: rv}
+	case "MList":
+		return &etcdserverpb.RangeRequest{Key: lo, RangeEnd: hi, Revision: rv}
+	}
+	return &etcdserverpb.RangeRequest{Key: lo, RangeEnd: hi, CountOnly: true, Revision: rv}
+}
+
 var keySeq int64
 
 func cmpMod(k []byte, rev int64) *etcdserverpb.Compare {
@@ -395,6 +433,11 @@ func (s *sut) invoke(kind string) string {
 	defer cancel()
 	k := []byte(fmt.Sprintf("/c18/k%d", atomic.AddInt64(&keySeq, 1)))
 	lo, hi := []byte("/c18/"), []byte("/c180")
+	if strings.HasPrefix(kind, "(ERangeAt ") {
+		f := strings.Fields(strings.Trim(kind, "()"))
+		_, err := s.etcd.Range(ctx, rangeAt(f[1], f[2], s.inner.GetCurrentRevision(), k))
+		return classify(err)
+	}
 	switch kind {
 	case "ERangeGet":
 		_, err := s.etcd.Range(ctx, &etcdserverpb.RangeRequest{Key: k})
@@ -1086,7 +1129,7 @@ func main() {
 		var sets []string
 		fail := ""
 		for attempt := 0; attempt < 2; attempt++ {
-			ts, sets, fail = s.runSchedule(ls, 30)
+			ts, sets, fail = s.runSchedule(ls, sched0)
 			if fail == "" {
 				break
 			}
@@ -1117,7 +1160,7 @@ func main() {
 		j := map[string]interface{}{"schedule": strings.Join(lc, " "), "sets": sets,
 			"A": map[string]interface{}{"begin": ts[0].begin, "scan": ts[0].scan, "joined": ts[0].joined, "pc": ts[0].pc},
 			"B": map[string]interface{}{"begin": ts[1].begin, "scan": ts[1].scan, "joined": ts[1].joined, "pc": ts[1].pc}}
-		cs := lib.Case{Kind: kindsS[i], Coq: lib.App("SchedCase", lib.N(30), lib.N(baseRev), lib.List(lc), tc(ts[0]), tc(ts[1]), lib.List(setc)),
+		cs := lib.Case{Kind: kindsS[i], Coq: lib.App("SchedCase", lib.N(sched0), lib.N(baseRev), lib.List(lc), tc(ts[0]), tc(ts[1]), lib.List(setc)),
 			JSON: j, Outcomes: []string{oc}, Trivial: len(ls) < 8}
 		w.Add(cs)
 		if fail != "" {
@@ -1132,6 +1175,36 @@ func main() {
 		w.Add(cs)
 		if fail != "" {
 			w.Fail(lib.ImplFailure{CaseID: w.Len() - 1, What: "overlap scenario could not be realised: " + fail, Case: cs.JSON})
+		}
+	}
+
+	// ---- part 2c: a follower that has served a read; the leader moves on; explicit-revision reads must sync again
+	for _, m := range rmodes {
+		for _, v := range revsels {
+			s.configure(config{leader: false, proxy: false, reach: "ok"})
+			r1, r2 := uint64(leaderRev), uint64(leaderRev+10)
+			ctx, cancel := context.WithTimeout(context.Background(), 5*time.Second)
+			_, err1 := s.etcd.Range(ctx, &etcdserverpb.RangeRequest{Key: []byte("/c18/"), RangeEnd: []byte("/c180")})
+			atomic.StoreUint64(&s.st.rev, r2) // more writes on the leader
+			resp2, err2 := s.etcd.Range(ctx, rangeAt(m, v, s.inner.GetCurrentRevision(), []byte("/c18/follow")))
+			cancel()
+			var setc []string
+			var sets []string
+			for _, c := range s.rec.take() {
+				if strings.HasPrefix(c, "set:") {
+					var before, val uint64
+					fmt.Sscanf(c, "set:%d:%d", &before, &val)
+					setc = append(setc, lib.N(val))
+					sets = append(sets, c)
+				}
+			}
+			var hdr2 uint64
+			if err2 == nil && resp2 != nil && resp2.Header != nil {
+				hdr2 = uint64(resp2.Header.Revision)
+			}
+			j := map[string]interface{}{"scenario": "follow", "mode": m, "revision": v, "r1": r1, "r2": r2, "sets": sets, "header2": hdr2, "err1": fmt.Sprint(err1), "err2": fmt.Sprint(err2)}
+			w.Add(lib.Case{Kind: "follow-" + m + "-" + v, Coq: lib.App("FollowCase", m, v, lib.N(r1), lib.N(r2), lib.List(setc), lib.N(hdr2)),
+				JSON: j, Outcomes: []string{fmt.Sprintf("follow:%v", err2 == nil)}})
 		}
 	}
 
